@@ -464,6 +464,14 @@ func eq0(x, y *T) *T {
 	if isC(x) && y.op == "ite" && (isC(y.a[1]) || isC(y.a[2])) {
 		return Ite(y.a[0], Eq(y.a[1], x), Eq(y.a[2], x))
 	}
+	if x.sort == SStr {
+		if x.op == "ite" {
+			return Ite(x.a[0], Eq(x.a[1], y), Eq(x.a[2], y))
+		}
+		if y.op == "ite" {
+			return Ite(y.a[0], Eq(y.a[1], x), Eq(y.a[2], x))
+		}
+	}
 	// (v + c1) = c2
 	if x.sort == SInt {
 		if isC(y) && x.op == "+" && isC(x.a[1]) {
@@ -539,6 +547,15 @@ func lt0(x, y *T) *T {
 	}
 	if isC(x) && y.op == "ite" && (isC(y.a[1]) || isC(y.a[2])) {
 		return Ite(y.a[0], Lt(x, y.a[1]), Lt(x, y.a[2]))
+	}
+	if x.sort == SStr {
+		// strings are ite-trees over constants (solver-chosen names): expand completely, no string theory needed
+		if x.op == "ite" {
+			return Ite(x.a[0], Lt(x.a[1], y), Lt(x.a[2], y))
+		}
+		if y.op == "ite" {
+			return Ite(y.a[0], Lt(x, y.a[1]), Lt(x, y.a[2]))
+		}
 	}
 	op := "<"
 	if x.sort == SBV {
